@@ -3,12 +3,12 @@ package dir
 import (
 	"os"
 	"path/filepath"
-	"sort"
 	"strconv"
 	"time"
 
 	"github.com/dapr/kit/logger"
 	"github.com/dapr/kit/zzverif"
+	"github.com/dapr/kit/zzverifos"
 )
 
 //verif:stub os.MkdirAll vMkdirAll
@@ -32,6 +32,7 @@ type vFS struct {
 	step    int
 	crashAt int
 	sets    []map[string][]byte // file sets of all Write calls issued so far
+	everPresent bool
 	clock   int64
 }
 
@@ -201,8 +202,11 @@ func vSameSet(a, b map[string][]byte) bool {
 func vInvariant() {
 	files, present, isDir := vResolve()
 	if !present {
+		// absent only before the first successful write: the switch to a new version is atomic
+		zzverif.Assert(!fs.everPresent, "target_never_disappears_once_written")
 		return
 	}
+	fs.everPresent = true
 	zzverif.Assert(isDir, "target_resolves_to_directory")
 	match := false
 	for _, s := range fs.sets {
@@ -297,8 +301,11 @@ func VerifDirCrash() {
 }
 
 // ---- native replay on the real filesystem -----------------------------------------------------------------------
-// The crash is realised by performing by hand the same prefix of filesystem calls that Write makes (the sequence is
-// MkdirAll(base), MkdirAll(newDir), WriteFile per file, Symlink, Rename, RemoveAll(prev)), then a fresh Dir recovers.
+// In the replay build the import of "os" in dir.go is swapped for a shim (zzverifos) whose calls are the real ones but
+// count as filesystem steps: the process "dies" (panic) before step crash_step of the crashing Write, and the on-disk
+// state is checked after every step - the same scenario and the same oracle as in the encoding, on a temp directory.
+//
+//verif:nativeimport concurrency/dir/dir.go os github.com/dapr/kit/zzverifos
 
 func vNativeSet(tag string, shapes []int) map[string][]byte {
 	m := map[string][]byte{}
@@ -319,40 +326,78 @@ func vNativeDirCrash() {
 	}
 	defer os.RemoveAll(root)
 	target := filepath.Join(root, "base", "target")
+	var sets []map[string][]byte
+	everPresent := false
+	var failed string
+	fail := func(id string) {
+		if failed == "" {
+			failed = id
+		}
+	}
+	invariant := func() {
+		ents, err := os.ReadDir(target)
+		if err != nil {
+			if everPresent {
+				fail("target_never_disappears_once_written")
+			}
+			return
+		}
+		everPresent = true
+		match := false
+		for _, s := range sets {
+			if len(ents) != len(s) {
+				continue
+			}
+			ok := true
+			for _, e := range ents {
+				b, _ := os.ReadFile(filepath.Join(target, e.Name()))
+				w, has := s[e.Name()]
+				if !has || string(b) != string(w) {
+					ok = false
+				}
+			}
+			if ok {
+				match = true
+			}
+		}
+		if !match {
+			fail("target_holds_exactly_one_complete_set")
+		}
+	}
+	zzverifos.AfterStep = invariant
+	write := func(d *Dir, set map[string][]byte) (err error, crashed bool) {
+		defer func() {
+			if r := recover(); r != nil {
+				if _, ok := r.(zzverifos.Crash); ok {
+					crashed = true
+					return
+				}
+				panic(r)
+			}
+		}()
+		sets = append(sets, set)
+		return d.Write(set), false
+	}
 	d := New(Options{Log: logger.NewLogger("verif-c18"), Target: target})
 	k := zzverif.Choose("complete_writes", 2)
-	var prev string
 	for i := 0; i < k; i++ {
-		zzverif.Assert(d.Write(vNativeSet("w"+strconv.Itoa(i), vAll)) == nil, "write_without_crash_succeeds")
-		prev, _ = os.Readlink(target)
+		err, _ := write(d, vNativeSet("w"+strconv.Itoa(i), vAll))
+		zzverif.Assert(err == nil, "write_without_crash_succeeds")
+		time.Sleep(time.Millisecond)
 	}
 	c := zzverif.Int("crash_step")
 	set := vNativeSet("crash", vAll)
-	names := make([]string, 0, len(set))
-	for n := range set {
-		names = append(names, n)
-	}
-	sort.Strings(names)
-	newDir := filepath.Join(root, "base", strconv.FormatInt(time.Now().UnixNano(), 10)+"-target")
-	var ops []func()
-	ops = append(ops, func() { os.MkdirAll(filepath.Join(root, "base"), os.ModePerm) })
-	ops = append(ops, func() { os.MkdirAll(newDir, os.ModePerm) })
-	for _, n := range names {
-		n := n
-		ops = append(ops, func() { os.WriteFile(filepath.Join(newDir, n), set[n], os.ModePerm) })
-	}
-	ops = append(ops, func() { os.Symlink(newDir, target+".new") })
-	ops = append(ops, func() { os.Rename(target+".new", target) })
-	if prev != "" {
-		ops = append(ops, func() { os.RemoveAll(prev) })
-	}
-	for i := 0; i < c && i < len(ops); i++ {
-		ops[i]()
-	}
+	zzverifos.CrashAt = zzverifos.Step + c
+	write(d, set)
+	zzverifos.CrashAt = -1
+	invariant()
 	d2 := New(Options{Log: logger.NewLogger("verif-c18"), Target: target})
 	for i := 0; i < 2; i++ {
+		time.Sleep(time.Millisecond)
 		s := vNativeSet("r"+strconv.Itoa(i), vRec[i])
-		zzverif.Assert(d2.Write(s) == nil, "write_after_crash_succeeds")
+		err, _ := write(d2, s)
+		zzverif.Assert(failed == "", failedID(failed))
+		zzverif.Assert(err == nil, "write_after_crash_succeeds")
 		ents, err := os.ReadDir(target)
 		zzverif.Assert(err == nil, "target_present_after_recovery")
 		zzverif.Assert(len(ents) == len(s), "target_shows_new_set_after_recovery")
@@ -361,5 +406,13 @@ func vNativeDirCrash() {
 			zzverif.Assert(string(b) == string(s[e.Name()]), "target_shows_new_set_after_recovery")
 		}
 	}
+	zzverif.Assert(failed == "", failedID(failed))
 	zzverif.Cover("dir_crash_done")
+}
+
+func failedID(id string) string {
+	if id == "" {
+		return "none"
+	}
+	return id
 }
